@@ -23,7 +23,7 @@ LEVEL_NOTE = "trusted: the layout generators (vlib/nmgen.py) and the comparison 
 RULE = ("layouts = theta record sets (17 item forms, singles and pairs) and omega record sets (23 forms, SAME continuations, diag x block pairs); "
         "edits = set init/lower/upper, fix/unfix each parameter, add theta, add/remove IIV, join/split, error model; non-trivial = layout accepted and the edit changed the code")
 ASSUMPTIONS = ["layouts that pharmpy refuses to read are counted, not failed", "an edit that refuses (ValueError/NotImplementedError/ModelError) ends the branch; any other exception of an edit is an edit that could not be written back"]
-BOUNDS = {"quick": "theta: 17 single item forms + all pairs of 7 core forms (one- and two-record); omega: all single forms, SAME continuations, every third diag x block pair; edit depth 1", "thorough": "three-item theta layouts; edit depth 2 on the 60 smallest layouts"}
+BOUNDS = {"quick": "theta: 17 single item forms + all pairs of 7 core forms (one- and two-record); omega: all single forms, SAME continuations, every third diag x block pair; edit depth 1, plus (structural edit, write back, every edit) on the small omega layouts", "thorough": "three-item theta layouts; edit depth 2: every edit pair on the 60 smallest layouts, (structural edit, write back, every edit) on all layouts"}
 
 
 def layouts(tier):
@@ -259,13 +259,23 @@ def run_layout(kind, thetas, omegas, sigmas, tier, res):
         res["states"] += 1
         small = len(thetas) + len(omegas) + len(sigmas) <= 4 and sum(len(r) for r in thetas + omegas + sigmas) <= 70
         if tier == "thorough":
-            second = None if small else STRUCTURAL  # depth 2: every edit pair on the small layouts, structural-first pairs elsewhere
+            # depth 2: every edit pair on the 60 smallest layouts, structural-first pairs on every other layout
+            second = None if repr([thetas, omegas, sigmas]) in _smallest60() else STRUCTURAL
         else:
             second = STRUCTURAL if kind == "omega" and small else ()
         apply_edits(m, base_code, [thetas, omegas, sigmas], label, (), second, res)
 
 
 STRUCTURAL = ("add_theta", "remove_iiv", "split", "join", "add_iiv")
+_SMALL60 = None
+
+
+def _smallest60():
+    global _SMALL60
+    if _SMALL60 is None:
+        ls = sorted(layouts("thorough"), key=lambda l: (sum(len(r) for r in l[1] + l[2] + l[3]), repr(l)))
+        _SMALL60 = {repr([t, o, g]) for _, t, o, g in ls[:60]}
+    return _SMALL60
 
 
 def apply_edits(m, base_code, layout, label, prefix, second, res):
